@@ -448,6 +448,7 @@ Section RewriteFacts.
   Variable locate : label -> outcome loc.
   Notation resolve_index := (resolve_index has locate).
   Notation render_part := (render_part has locate).
+  Notation render_item := (render_item has locate).
   Notation resolve_group := (resolve_group has locate).
   Notation rewrite_f := (rewrite_f has locate).
   Notation rewrite := (rewrite has locate).
@@ -705,6 +706,11 @@ Section RewriteFacts.
     unfold EvalIdx.render_part. rewrite B3, (resolve_index_resolves a l Ht Hc R). reflexivity.
   Qed.
 
+  Lemma render_item_tick p is_stop : has_char ch_tick p = true -> render_item p is_stop = render_part p is_stop.
+  Proof. intros H. unfold EvalIdx.render_item. rewrite H. reflexivity. Qed.
+  Lemma render_item_plain p is_stop : has_char ch_tick p = false -> render_item p is_stop = Ret p.
+  Proof. intros H. unfold EvalIdx.render_item. rewrite H. reflexivity. Qed.
+
   (* shapes of group(1) *)
   Lemma resolve_group_single p : has_char ch_colon p = false ->
     resolve_group p = omap (fun l => "[" ++ str_loc l ++ "]") (resolve_index p).
@@ -712,9 +718,9 @@ Section RewriteFacts.
 
   Lemma resolve_group_slice2 pa pb : has_char ch_colon pa = false -> has_char ch_colon pb = false ->
     resolve_group (pa ++ String ch_colon pb) =
-      match render_part (strip is_py_space pa) false with
+      match render_item (strip is_py_space pa) false with
       | Raise e => Raise e
-      | Ret a => match render_part (strip is_py_space pb) true with
+      | Ret a => match render_item (strip is_py_space pb) true with
                  | Raise e => Raise e
                  | Ret b => Ret ("[" ++ a ++ ":" ++ b ++ ":" ++ "" ++ "]")
                  end
@@ -727,9 +733,9 @@ Section RewriteFacts.
   Lemma resolve_group_slice3 pa pb ps :
     has_char ch_colon pa = false -> has_char ch_colon pb = false -> has_char ch_colon ps = false ->
     resolve_group (pa ++ String ch_colon (pb ++ String ch_colon ps)) =
-      match render_part (strip is_py_space pa) false with
+      match render_item (strip is_py_space pa) false with
       | Raise e => Raise e
-      | Ret a => match render_part (strip is_py_space pb) true with
+      | Ret a => match render_item (strip is_py_space pb) true with
                  | Raise e => Raise e
                  | Ret b => Ret ("[" ++ a ++ ":" ++ b ++ ":" ++ strip is_py_space ps ++ "]")
                  end
@@ -958,6 +964,16 @@ Section BracketFacts.
     - intros _. destruct is_stop; reflexivity.
   Qed.
 
+  Lemma render_item_lp x is_stop : lp_ok x ->
+    render_item has locate (lp_text x) is_stop = Ret (ropt (if is_stop then lp_stop x else lp_start x)).
+  Proof.
+    intros Hx. destruct x as [a l|].
+    - cbn [lp_ok] in Hx. destruct Hx as (Ht & Hc & R). cbn [lp_text].
+      rewrite (render_item_tick has locate (bt a) is_stop (proj1 (bt_facts a Hc))).
+      exact (render_part_lp (LP a l) is_stop (conj Ht (conj Hc R))).
+    - cbn [lp_text lp_start lp_stop]. destruct is_stop; reflexivity.
+  Qed.
+
   Theorem label_slice_rewrite_loc x y :
     lp_ok x -> lp_ok y ->
     resolve_group (lp_text x ++ String ch_colon (lp_text y)) =
@@ -965,7 +981,7 @@ Section BracketFacts.
   Proof.
     intros Hx Hy. destruct (lp_text_facts x Hx) as [X1 X2]. destruct (lp_text_facts y Hy) as [Y1 Y2].
     rewrite resolve_group_slice2 by assumption. rewrite X2, Y2.
-    rewrite (render_part_lp x false Hx), (render_part_lp y true Hy). reflexivity.
+    rewrite (render_item_lp x false Hx), (render_item_lp y true Hy). reflexivity.
   Qed.
 
   Theorem label_slice_step_rewrite_loc x y ps :
@@ -975,7 +991,7 @@ Section BracketFacts.
   Proof.
     intros Hx Hy Hs. destruct (lp_text_facts x Hx) as [X1 X2]. destruct (lp_text_facts y Hy) as [Y1 Y2].
     rewrite resolve_group_slice3 by assumption. rewrite X2, Y2.
-    rewrite (render_part_lp x false Hx), (render_part_lp y true Hy). reflexivity.
+    rewrite (render_item_lp x false Hx), (render_item_lp y true Hy). reflexivity.
   Qed.
 
   (* ---- C10's reading: built-in-int positions, stop inclusive ---- *)
@@ -1073,59 +1089,25 @@ Section BracketFacts.
     index_sem n (Z_to_string z) = index_sem n g.
   Proof. intros Hc P. rewrite index_sem_single, index_sem_plain_index by exact Hc. rewrite P. reflexivity. Qed.
 
-  (* a positional slice: both ends through int(), and the stop INCREMENTED whenever it is written *)
-  Theorem positional_slice_rewrite pa pb :
-    has_char ch_tick pa = false -> has_char ch_colon pa = false ->
-    has_char ch_tick pb = false -> has_char ch_colon pb = false ->
-    resolve_group (pa ++ String ch_colon pb) =
-      match opt_int pa, opt_int pb with
-      | Some oa, Some ob => Ret ("[" ++ ropt oa ++ ":" ++ ropt (option_map (fun z => z + 1) ob) ++ ":" ++ "" ++ "]")
-      | _, _ => Raise ValueError
-      end.
+  Lemma strip_keeps_no_tick f p : has_char ch_tick p = false -> has_char ch_tick (strip f p) = false.
   Proof.
-    intros Ta Ca Tb Cb. rewrite resolve_group_slice2 by assumption.
-    rewrite (render_part_positional pa false Ta), (render_part_positional pb true Tb).
-    destruct (opt_int pa); [|reflexivity]. destruct (opt_int pb); reflexivity.
+    intros Ht.
+    assert (L : forall s, has_char ch_tick s = false -> has_char ch_tick (lstrip f s) = false).
+    { intros s0. induction s0 as [|c r IH]; [reflexivity|]. cbn [lstrip has_char]. intros H.
+      destruct (f c); [apply IH; apply orb_false_iff in H; apply H|exact H]. }
+    assert (R : forall s, has_char ch_tick s = false -> has_char ch_tick (rstrip f s) = false).
+    { intros s0. induction s0 as [|c r IH]; [reflexivity|]. cbn [rstrip has_char]. intros H.
+      apply orb_false_iff in H as [H1 H2]. specialize (IH H2).
+      destruct (rstrip f r); [destruct (f c); cbn [has_char]; [reflexivity|rewrite H1; reflexivity]|].
+      cbn [has_char]. cbn [has_char] in IH. rewrite H1. exact IH. }
+    unfold strip. apply R, L, Ht.
   Qed.
 
-  Theorem positional_slice_step_rewrite pa pb ps :
-    has_char ch_tick pa = false -> has_char ch_colon pa = false ->
-    has_char ch_tick pb = false -> has_char ch_colon pb = false -> has_char ch_colon ps = false ->
-    resolve_group (pa ++ String ch_colon (pb ++ String ch_colon ps)) =
-      match opt_int pa, opt_int pb with
-      | Some oa, Some ob => Ret ("[" ++ ropt oa ++ ":" ++ ropt (option_map (fun z => z + 1) ob) ++ ":" ++ strip is_py_space ps ++ "]")
-      | _, _ => Raise ValueError
-      end.
-  Proof.
-    intros Ta Ca Tb Cb Cs. rewrite resolve_group_slice3 by assumption.
-    rewrite (render_part_positional pa false Ta), (render_part_positional pb true Tb).
-    destruct (opt_int pa); [|reflexivity]. destruct (opt_int pb); reflexivity.
-  Qed.
+  (* since fix 967c56d the callback leaves an item without a backtick exactly as written (after str.strip()) *)
+  Lemma render_item_stripped_plain p is_stop : has_char ch_tick p = false ->
+    render_item has locate (strip is_py_space p) is_stop = Ret (strip is_py_space p).
+  Proof. intros H. apply render_item_plain. apply strip_keeps_no_tick. exact H. Qed.
 
-  (* its meaning before and after *)
-  Theorem positional_slice_meaning n pa pb oa ob :
-    has_char ch_colon pa = false -> has_char ch_colon pb = false ->
-    opt_int pa = Some oa -> opt_int pb = Some ob ->
-    index_sem n (pa ++ String ch_colon pb) = Some (py_slice_positions n oa ob 1) /\
-    index_sem n (ropt oa ++ String ch_colon (ropt (option_map (fun z => z + 1) ob) ++ String ch_colon ""))
-      = Some (py_slice_positions n oa (option_map (fun z => z + 1) ob) 1).
-  Proof.
-    intros Ca Cb Pa Pb. split.
-    - rewrite index_sem_slice2 by assumption. unfold slice_sem. rewrite Pa, Pb. reflexivity.
-    - change "" with (ropt None). rewrite index_sem_slice3 by apply ropt_no_colon. rewrite slice_sem_ropt. reflexivity.
-  Qed.
-
-  (* an open stop is the one shape of positional slice whose meaning survives *)
-  Corollary positional_open_stop_kept n pa oa :
-    has_char ch_tick pa = false -> has_char ch_colon pa = false -> opt_int pa = Some oa ->
-    resolve_group (pa ++ String ch_colon "") = Ret ("[" ++ ropt oa ++ ":" ++ "" ++ ":" ++ "" ++ "]") /\
-    index_sem n (ropt oa ++ String ch_colon ("" ++ String ch_colon "")) = index_sem n (pa ++ String ch_colon "").
-  Proof.
-    intros Ta Ca Pa. split.
-    - rewrite positional_slice_rewrite by (try assumption; reflexivity). rewrite Pa. reflexivity.
-    - destruct (positional_slice_meaning n pa "" oa None Ca eq_refl Pa eq_refl) as [M1 M2].
-      rewrite M1. exact M2.
-  Qed.
 End BracketFacts.
 
 (* ================================================================== eval(): namespace, purity, undefined names *)
